@@ -207,7 +207,8 @@ static void gen_counter(chist *h, vh_rng *r, unsigned g)
     if (!o) return;
     o->len = vh_below(r, 4) ? bb : vh_below(r, bb + 1);
     if (!vh_below(r, 12)) { o->flags |= F_NULL_PTR; o->cls = "set_counter(null)"; o->dlen = 0; return; }
-    switch (vh_below(r, 8)) {
+    switch (vh_below(r, 10)) {
+    case 8: case 9: vh_rand_bytes(r, buf, 16); vh_fill_msb_boundary(r, buf, o->len); break;   /* low word about to cross 0x7F..FF / 0x80..00 */
     case 0: memset(buf, 0xFF, 16); break;                                   /* wraps at once */
     case 1: memset(buf, 0xFF, 16); buf[o->len ? o->len - 1 : 0] = (uint8_t)(0xFF - vh_below(r, 20)); break; /* wraps within a few blocks */
     case 2: /* 00..00 FF..FF : carry chain through k bytes */
